@@ -2710,7 +2710,8 @@ class BaseParser:
                 elts=[], ctx=ast.Load(), lineno=p1_tok.lineno, col_offset=p1_tok.lexpos
             )
 
-        elif isinstance(p2, ast.GeneratorExp):
+        elif isinstance(p2, ast.GeneratorExp) and not hasattr(p2, "_lopen_lineno"):
+            # a generator expression in parentheses of its own is an element
             p0 = ast.ListComp(
                 elt=p2.elt,
                 generators=p2.generators,
